@@ -27,6 +27,7 @@ func runC09(s *Sim) {
 		fam = c.fam
 	}
 	inner := scenarios[fam]
+	s.RaceMode = true
 	prop := s.Prop
 	s.Prop = fam // the wrapped scenario names its rules after its own property
 	carry := s.Carry
